@@ -1772,6 +1772,19 @@ def m_slice_get(I, st, info, args, depth):
                     for s3, t2 in fork_bool(I, s2, I.compare(s2, "Le", b, L)):
                         out.append((s3, "return", some(Seq("%s[%r..%r]" % (s_.name, a, b), b.sub(a), kind="bytes")) if t2 else none()))
                 return out
+    if op in ("first", "last"):
+        L = s_.length
+        out = []
+        for s2, t in fork_bool(I, st, I.compare(st, "Ge", L, Aff(1))):
+            if not t:
+                out.append((s2, "return", none()))
+            elif s_.elems is not None and len(s_.elems) >= 1:
+                out.append((s2, "return", some(Ptr(s2.new_cell(s_.elems[0 if op == "first" else -1]), ()))))
+            elif op == "first":
+                out.append((s2, "return", some(Ptr(s2.new_cell(I.project(s2, s_, 0)), ()))))
+            else:
+                out.append((s2, "return", some(Ptr(s2.new_cell(Sym("%s[last]" % s_.name)), ()))))
+        return out
     return ret(st, Sym("%s@%d" % (op, info["ln"]), attrs={"adt": "core::option::Option"}))
 
 
